@@ -12,3 +12,6 @@ import TradingVerif.Props.C18
 #print axioms TV.Tab.quotes_widened
 #print axioms TV.Tab.timesteps_spec
 #print axioms TV.Tab.tabular_obs_causal
+#print axioms TV.Tab.queue_full_window
+#print axioms TV.Tab.warmup_serves_table
+#print axioms TV.Tab.warmup_short_pads
